@@ -165,6 +165,7 @@ type runner struct {
 	fail       *finding
 	mm         *finding
 
+	signal   *signalNormalizer // the normaliser of the hierarchy; can announce that a name is being normalised
 	hiddenRe *regexp.Regexp
 	feMode   bool       // kernel-facing calls go through a front end (FUSE or NFSv4.0)
 	fe       *frontEnds // set once the first root exists
@@ -321,10 +322,11 @@ func (r *runner) configure(fold, nfs bool) {
 	no := false
 	r.baseSymlinks = statefulSymlinkFactory{base: virtual.NewBaseSymlinkFactory(setter), allocator: r.ha, fail: &no}
 	r.symlinkFactory = statefulSymlinkFactory{base: virtual.NewBaseSymlinkFactory(setter), allocator: r.ha, fail: &r.allocFail}
-	r.normalizer = virtual.CaseSensitiveComponentNormalizer
+	r.signal = &signalNormalizer{base: virtual.CaseSensitiveComponentNormalizer}
 	if fold {
-		r.normalizer = virtual.CaseInsensitiveComponentNormalizer
+		r.signal.base = virtual.CaseInsensitiveComponentNormalizer
 	}
+	r.normalizer = r.signal
 	norm := make([]int, len(names))
 	hidden := make([]bool, len(names))
 	cfg := []string{"cfg", strconv.Itoa(len(names))}
@@ -1548,6 +1550,9 @@ func (r *runner) apply1(line string) {
 	case "clist":
 		r.clist(line, f)
 
+	case "crename", "cremove":
+		r.crace(line, f)
+
 	case "cjoin":
 		if r.park == nil {
 			r.skip()
@@ -1567,7 +1572,7 @@ func (r *runner) apply1(line string) {
 func (r *runner) blockedWhileParked(f []string, d any, rd *rdir, arg func(int) int) bool {
 	pk := r.park
 	switch f[0] {
-	case "clist", "filter", "check", "fetchfail", "removeallchildren", "installhooks", "newroot":
+	case "clist", "crename", "cremove", "filter", "check", "fetchfail", "removeallchildren", "installhooks", "newroot":
 		return true
 	}
 	if d == pk.child {
@@ -2486,6 +2491,76 @@ func (g *generator) hiddenOnlyScenario() []string {
 	return lines
 }
 
+// raceScenario: a lazy directory C with a gated fetcher (empty, or holding only a
+// hidden file, so that a directory can be renamed over it), a source directory, and
+// a crename / cremove line that drives the three-party race on C's lock.
+func (g *generator) raceScenario() []string {
+	r := g.r
+	var cands []int
+	for id, p := range r.mDirs {
+		if p == nil {
+			continue
+		}
+		if rd := r.rDirOf[p]; rd != nil && !rd.removed && rd.pending == nil {
+			cands = append(cands, id)
+		}
+	}
+	if len(cands) == 0 || r.fetchFail || r.allocFail {
+		return nil
+	}
+	dNew := cands[g.rnd.Intn(len(cands))]
+	rdNew := r.rDirOf[r.mDirs[dNew]]
+	dOld := dNew
+	if g.rnd.Chance(1, 3) {
+		dOld = cands[g.rnd.Intn(len(cands))]
+	}
+	rdOld := r.rDirOf[r.mDirs[dOld]]
+	if rdOld.fs != rdNew.fs {
+		dOld, rdOld = dNew, rdNew
+	}
+	used := map[int]bool{}
+	n := g.absentName(rdNew, used)
+	if n < 0 {
+		return nil
+	}
+	used[r.ref.norm[n]] = true
+	var lines []string
+	// the lazy destination: usually something a directory may be renamed over
+	var hid []int
+	for i := range names {
+		if r.ref.hidden[i] {
+			hid = append(hid, i)
+		}
+	}
+	switch {
+	case g.rnd.Chance(1, 2):
+		lines = append(lines, "deftmpl")
+	case len(hid) > 0 && g.rnd.Chance(2, 3):
+		lines = append(lines, fmt.Sprintf("newleaf %d", g.rnd.Intn(4)), fmt.Sprintf("deftmpl %d L %d", hid[g.rnd.Intn(len(hid))], g.nextLeaf))
+	default:
+		lines = append(lines, fmt.Sprintf("newleaf %d", g.rnd.Intn(4)), fmt.Sprintf("deftmpl %d L %d", g.rnd.Intn(len(names)), g.nextLeaf))
+	}
+	lines = append(lines, fmt.Sprintf("createchildren %d 0 %d D %d", dNew, n, g.nextTmpl), fmt.Sprintf("lookupchild %d %d", dNew, n))
+	if g.rnd.Chance(1, 4) {
+		return append(lines, fmt.Sprintf("cremove %d %d %d", dNew, n, g.rnd.Intn(4)))
+	}
+	src := -1
+	if dOld == dNew {
+		src = g.absentName(rdOld, used)
+	} else {
+		src = g.absentName(rdOld, nil)
+	}
+	if src < 0 {
+		return nil
+	}
+	if g.rnd.Chance(4, 5) {
+		lines = append(lines, fmt.Sprintf("mkdir %d %d", dOld, src))
+	} else {
+		lines = append(lines, fmt.Sprintf("open %d %d 1 0", dOld, src))
+	}
+	return append(lines, fmt.Sprintf("crename %d %d %d %d %d", dOld, src, dNew, n, g.rnd.Intn(4)))
+}
+
 // whileParked: mostly what makes the parked listing interesting — the entry it
 // waits on goes away, entries before / after it come and go — and the join.
 func (g *generator) whileParked() []string {
@@ -2526,6 +2601,10 @@ func (g *generator) next() []string {
 		}
 	} else if g.rnd.Chance(1, 40) {
 		if ls := g.hiddenOnlyScenario(); ls != nil {
+			return ls
+		}
+	} else if r.fe == nil && g.rnd.Chance(1, 30) {
+		if ls := g.raceScenario(); ls != nil {
 			return ls
 		}
 	}
@@ -2706,8 +2785,10 @@ func refKinds(f []string) map[int]int {
 	}
 	switch f[0] {
 	case "mkdir", "mknod", "open", "lookup", "readdir", "vremove", "getattr", "lookupchild", "lookupall", "readdirb",
-		"remove", "removeall", "removeallchildren", "createandenter", "filter", "installhooks", "clist":
+		"remove", "removeall", "removeallchildren", "createandenter", "filter", "installhooks", "clist", "cremove":
 		m[1] = 0
+	case "crename":
+		m[1], m[3] = 0, 0
 	case "link":
 		m[1], m[3] = 0, 1
 	case "rename":
@@ -2851,7 +2932,9 @@ func main() {
 		"RemoveAllChildren/CreateChildren(overwrite, lazy sub-directories)/CreateAndEnterPrepopulatedDirectory/FilterChildren/InstallHooks, paginated VirtualReadDir (page size 1-10, resumed from the "+
 		"last, an earlier or an arbitrary cookie) interleaved with the mutations, fetcher and allocator faults; in a quarter of the histories also listings that run concurrently with the mutations "+
 		"(clist/cjoin: a VirtualReadDir with a change-ID attribute mask in its own goroutine is parked on the lock of a lazy child directory whose InitialContentsFetcher blocks on a harness gate, the main goroutine renames/removes/creates entries meanwhile, "+
-		"then the gate opens; in a quarter (quick) to 5/12 (thorough) of the histories the kernel-facing calls are issued through a front end instead of directly - FUSE requests built in-process against fuse.NewSimpleRawFileSystem "+
+		"then the gate opens; every history may also contain forced three-party races on the lock-drop window of getAndLockIfDirectory (crename/cremove: T1 holds the lock of a lazy directory inside its fetcher, T2 = VirtualRename onto it / VirtualRemove of it has dropped its parent locks and waits, "+
+		"the main goroutine removes / renames away / replaces the rename's source or the entry being removed, then the gate opens; judged by: no panic, no hang, results and contents are those of some sequential order of the calls on the reference hierarchy, the Lean model run in that order agrees; "+
+		"all waits have timeouts and a scenario that could not be driven into the window is only counted); in a quarter (quick) to 5/12 (thorough) of the histories the kernel-facing calls are issued through a front end instead of directly - FUSE requests built in-process against fuse.NewSimpleRawFileSystem "+
 		"(LOOKUP, MKDIR, MKNOD, SYMLINK, CREATE+RELEASE, LINK, RENAME, UNLINK, RMDIR, READDIR, READDIRPLUS) or NFSv4.0 COMPOUNDs against nfsv4.NewNFS40Program (PUTFH/SAVEFH, LOOKUP, CREATE, LINK, RENAME, REMOVE, READDIR, GETFH) - and the translated answers "+
 		"(errno/nfsstat4, node id/file handle -> object, offsets/cookies) go through the same model comparison and monitor; after every call C14's VerifLockIsFree is asked about every known directory; such interleavings inside one page are covered by the harness and the reference monitor only - the model is dropped for the rest of that history, its readdir theorems quantify over interleavings at page granularity); non-trivial = the history completed a listing that took more than one page, "+
 		"performed a successful rename, a successful remove and a bulk call; distinct = hash of the op list")
